@@ -401,4 +401,37 @@ example : Obj.readObj (Obj.tokenize "v 0.5 -1e-05 2.0\nv 3.0 NaN inf\n\nf 4 1 2 
     = some ([["0.5".toList, "-1e-05".toList, "2.0".toList], ["3.0".toList, "NaN".toList, "inf".toList]], [[4, 1, 2, 11]]) := by
   decide
 
+/-- **C10_obj_blockwise.** Size independence of the text: a writer that emits the lines of the file chunk by chunk
+    (ANY cut `cs` of the lines into consecutive blocks – 65536 rows per block, one block per facet shape, …), every
+    row terminated by its newline, produces exactly the text of the lines written at once. -/
+theorem C10_obj_blockwise (cs : List (List Obj.Line)) : Obj.renderChunks cs = Obj.render cs.flatten := by
+  induction cs with
+  | nil => rfl
+  | cons c t ih =>
+    have ih' : List.flatMap Obj.render t = Obj.render t.flatten := ih
+    simp only [Obj.renderChunks, List.flatMap_cons, List.flatten_cons, ih']
+    simp only [Obj.render, Femio.Text.unlines, List.map_append, List.flatMap_append]
+
+/-- **C10_obj_roundtrip_blockwise.** Hence the character-level round trip holds for every block-wise writer of that
+    kind, whatever the number of faces and the block size. -/
+theorem C10_obj_roundtrip_blockwise (verts : List (List Obj.Token)) (blocks : List (List (List Nat)))
+    (cs : List (List Obj.Line)) (hcs : cs.flatten = Obj.writeObj verts blocks) (h : Obj.vertsOKB verts = true) :
+    Obj.readObj (Obj.tokenize (Obj.renderChunks cs)) = some (verts, blocks.flatten.map (·.map (· + 1))) := by
+  rw [C10_obj_blockwise, hcs]
+  exact C10_obj_roundtrip_chars verts blocks h
+
+/-- non-vacuity: three faces written in chunks of two rows -/
+example : Obj.renderChunks [[Obj.fLine [0, 1, 2], Obj.fLine [0, 2, 3]], [Obj.fLine [0, 3, 1]]]
+    = "f 1 2 3\nf 1 3 4\nf 1 4 2\n".toList := by decide
+
+/-- **C10_obj_blockwise_joined_counterexample.** The block-wise writer that joins the rows of a chunk by newlines and
+    writes one newline at the very end (seeded change C10-8) is NOT size independent: with one chunk it writes the
+    correct text, with two chunks the rows at the chunk boundary share a line (`f 1 2 3f 1 3 4`) and the file cannot be
+    read back. -/
+theorem C10_obj_blockwise_joined_counterexample :
+    Obj.renderChunksJoined [[Obj.fLine [0, 1, 2], Obj.fLine [0, 2, 3]]] = Obj.render [Obj.fLine [0, 1, 2], Obj.fLine [0, 2, 3]]
+    ∧ Obj.renderChunksJoined [[Obj.fLine [0, 1, 2]], [Obj.fLine [0, 2, 3]]] = "f 1 2 3f 1 3 4\n".toList
+    ∧ Obj.readObj (Obj.tokenize (Obj.renderChunksJoined [[Obj.fLine [0, 1, 2]], [Obj.fLine [0, 2, 3]]])) = none := by
+  decide
+
 end Femio.C10
